@@ -112,7 +112,7 @@ func (m *manager) handleManifest(req manifestRequest) {
 	case <-m.lc.ShuttingDown():
 		m.log.Error("not running: handle manifest")
 		req.ch <- ErrNotRunning
-		m.vreply(req.ch, ErrNotRunning)
+		m.vrefuse(req, ErrNotRunning)
 	}
 }
 
